@@ -177,6 +177,68 @@ def run(ctx):
         except Skip:
             pass
 
+    # ---- R20.2b: check_list(list) = some marker of the list is present (an empty listing has none)
+    try:
+        from .. import pathx as _px2
+        from ..throttle import implies as _imp
+        from ..facts import strip_generics as _sg
+        cl = ctx.anchor_one("R20.2", "origins()::check_list", facts.fns_matching(r"^project_origins::origins::.*check_list$"))
+        rows = set()
+        for q in _px2.Enum(interesting=lambda d: not _sg(d).endswith(("DirList::has_file", "DirList::has_dir"))).paths(thir.root(cl)):
+            em = None
+            for e in q.ev:
+                if e[0] == "branch":
+                    if _imp(e[1], e[2], "DirList::is_empty(list)", True):
+                        em = True
+                    elif _imp(e[1], e[2], "DirList::is_empty(list)", False):
+                        em = False
+            rows.add((em, q.val))
+        okr = rows in ({(True, "False"), (False, "Iterator::any(IntoIterator::into_iter(array), closure)")},
+                       {(None, "Iterator::any(IntoIterator::into_iter(array), closure)")})
+        idc = [c for c in facts.children(cl) if c.kind == "closure" and _px2.desc(thir.peel(thir.root(c))) == "f"]
+        ctx.require(okr and len(idc) == 1, "R20.2", "check-list-is-any", "check_list is `any marker present` (false for an empty listing)", cl.loc(cl.line),
+                    detail=str(sorted(rows, key=str)), fail="check_list no longer answers `one of the listed markers is present`: %s" % sorted(rows, key=str))
+        ie = ctx.anchor_fn("R20.2", "project_origins::DirList::is_empty")
+        ctx.require(_px2.desc(thir.peel(thir.root(ie))) == "HashMap::is_empty(self.0)", "R20.2", "dirlist-is-empty", "DirList::is_empty is the listing's own emptiness",
+                    ie.loc(ie.line), detail=_px2.desc(thir.peel(thir.root(ie))))
+    except Skip:
+        pass
+
+    # ---- R20.4 (path form): every level is looked at once, in order, and the walk moves up every round
+    try:
+        from .. import pathx as _px3
+        from ..facts import strip_generics as _sg3
+        o3 = ctx.anchor_one("R20.4", "coroutine body of project_origins::origins",
+                            [f for f in facts.fns_matching(r"^project_origins::origins::\{closure#\d+\}$") if f.kind == "coroutine"])
+        en3 = _px3.Enum(interesting=lambda d: _sg3(d).endswith(("check_list", "DirList::obtain", "HashSet::insert", "Path::parent")))
+        CK = "check_list(await DirList::obtain(current))"
+        bad3 = []
+        n_it = 0
+        for q in en3.paths(thir.root(o3)):
+            if not (q.out == "val" and q.val == "origins"):
+                bad3.append("origins() ends with %s %s" % (q.out, q.val))
+            for e in q.ev:
+                if e[0] != "loop":
+                    continue
+                for it in e[1]:
+                    n_it += 1
+                    seq = [(x[0], _sg3(x[1]).split("::")[-1] if x[0] == "call" else x[1]) for x in it if x[0] in ("call", "assign")]
+                    names = [b for a, b in seq]
+                    ok = names[:4] == ["parent", "current", "obtain", "check_list"] and any(x[0] == "assign" and x[1] == "current" and x[2] == "parent" for x in it) \
+                        and ("loop-break",) not in it
+                    hit = None
+                    for x in it:
+                        if x[0] == "branch" and x[1].endswith(CK):
+                            hit = x[2] != _px3.split_not(x[1])[1]
+                    ins3 = [_px3.desc(x[2]["a"][1]) for x in it if x[0] == "call" and _sg3(x[1]).endswith("HashSet::insert")]
+                    ok = ok and ((hit is True and ins3 == ["ToOwned::to_owned(current)"]) or (hit is False and not ins3))
+                    if not ok:
+                        bad3.append(_px3.show_events(it)[:260])
+        ctx.require(not bad3 and n_it >= 2, "R20.4", "ancestor-walk", "each round moves to the parent, lists it, and inserts it exactly when check_list holds; nothing stops the walk early",
+                    o3.loc(o3.line), detail=" || ".join(bad3)[:500], fail="the ancestor walk of origins() is no longer `move up, check, insert on a hit` on every round: " + " || ".join(bad3)[:300])
+    except Skip:
+        pass
+
     # ---- R20.4
     try:
         o = ctx.anchor_one("R20.4", "coroutine body of project_origins::origins",
